@@ -114,8 +114,11 @@ def appendBitString (pos : Nat) (bytes : Bytes) (bitsLength : Nat) (ext : Bool) 
       if (bitsLength : Int) ≠ ub then err
       else if (bitsLength + 7) / 8 > 2 then
         .ok (pre ++ alignBits pos1 ++ content)
+      -- `putBitString(bytes, 0)` at an unaligned position indexes `bytes[0]` of the empty slice `bytes[:0]`
+      else if bitsLength = 0 ∧ pos1 % 8 ≠ 0 then panic
       else .ok (pre ++ content)
-    else if (bitsLength : Int) < lb then err
+    -- no upper bound: `rawLength = bitsLength - lb` wraps, a 64K fragment is announced and `bytes[0:8192+…]` is out of range
+    else if (bitsLength : Int) < lb then (if sizeRange = -1 then panic else err)
     else
       match fragLoop 1 sizeRange lb.toNat (bitsLength / 16384 + 2) pos1 (bitsLength - lb.toNat) content with
       | .error e => .error e
@@ -131,8 +134,11 @@ def appendOctetString (pos : Nat) (bytes : Bytes) (ext : Bool) (lbP ubP : Option
     if sizeRange = 1 then
       if (bytes.length : Int) ≠ ub then err
       else if bytes.length > 2 then .ok (pre ++ alignBits pos1 ++ content)
+      -- `putBitString(bytes, 0)` at an unaligned position indexes `bytes[0]` of an empty slice
+      else if bytes.length = 0 ∧ pos1 % 8 ≠ 0 then panic
       else .ok (pre ++ content)
-    else if (bytes.length : Int) < lb then err
+    -- no upper bound: `rawLength = byteLen - lb` wraps, a 64K fragment is announced and `bytes[0:65536+lb]` is out of range
+    else if (bytes.length : Int) < lb then (if sizeRange = -1 then panic else err)
     else
       match fragLoop 8 sizeRange lb.toNat (bytes.length / 16384 + 2) pos1 (bytes.length - lb.toNat) content with
       | .error e => .error e
